@@ -252,11 +252,33 @@ def trailingQuiet (h : History) : Nat :=
       | _, _ => go rest n
   go h.reverse 0
 
-/-- C06 liveness oracle for a `live=1` case that ended quiescent with at most `retxMax` drops:
+/-- Longest time (in egress rounds) a delivered packet spent on the wire. -/
+def maxHold (h : History) : Nat :=
+  (h.foldl (fun (acc : Nat × List (Nat × Nat) × Nat) e =>
+    let (round, born, mx) := acc
+    match e.1 with
+    | .egress =>
+      let ids := e.2.filterMap fun o => match o with | .pkt id _ => some (id, round + 1) | _ => none
+      (round + 1, born ++ ids, mx)
+    | .deliver id | .dup id =>
+      match born.lookup id with
+      | some b => (round, born, max mx (round - b))
+      | none => acc
+    | _ => acc) (0, [], 0)).2.2
+
+/-- The fault budget under which retransmit exhaustion cannot legitimately occur (`d` drops, every
+    packet delivered within `hold` rounds): a segment goes out at passes 0, thr, …, max·thr and the
+    connection aborts at pass (max+1)·thr; the pass counter is not reset when the handshake
+    completes (up to thr−1 passes lost). -/
+def withinBudget (cfg : Cfg) (h : History) : Bool :=
+  decide (dropCount h < cfg.retxMax) &&
+    decide (2 * maxHold h < (cfg.retxMax - dropCount h) * cfg.retxThreshold)
+
+/-- C06 liveness oracle for a `live=1` case that ended quiescent within the fault budget:
     nobody saw an error, everything written was read, no writer is parked, every closed direction
     delivered EOF. -/
 def c06Liveness (cfg : Cfg) (h : History) : Option String :=
-  if dropCount h > cfg.retxMax then none
+  if !withinBudget cfg h then none
   else if trailingQuiet h < cfg.retxThreshold + 1 then none
   else
     let a := appRun h
